@@ -36,7 +36,7 @@ def per_property():
 
 def findings():
     out = ['Every entry reproduces natively through the public API (native twin; several also through the `vata` CLI) and was', 'explained from the source before it was repaired.  All repairs are single unguarded `fix:` commits in /repo; the', 'unedited test suite gives the same results with each of them (4 targets pass, `bdd_bu_tree_aut_test` keeps its 2', 'baseline failures).  `known_findings.json` records them as `fixed` (a fixed entry suppresses nothing).', '',
-           '**Open: C07-1.**  The upward inclusion algorithm shared by the BDD bottom-up encoding (`src/tree_incl_up.hh`) gives every child', 'position that is not being processed the *union* of all macro-states the antichain holds for that child, instead of one macro-state', 'per position in every combination; with a rule of rank >= 2 in the smaller automaton it can answer "included" for a pair that is', 'not included (A = all trees over a, b, g/2; B = trees whose leaves are all a or all b: g(a,b) is missed).  The repair is a rewrite of', 'the post-image computation (enumerate the product of the per-child antichain entries, as the explicit encoding does in', '`explicit_tree_incl_up.cc`) - a first attempt indexed `choices[index]` on possibly empty entries - which is more than a small, safe', 'patch, so the finding stays open: the C07 check excludes exactly its failure signature (rule of rank >= 2 in A, verdict true,', 'oracle false), re-runs the recorded shape on every run and prints `KNOWN-FINDING` while it still reproduces; any other violation on', 'the same inputs (e.g. a wrong "not included", seed C07-r2m3) is still reported.', '',
+           "**C07-1 (open during the first build phase, fixed since by 5d7f6798).**  The upward inclusion algorithm of the BDD bottom-up encoding (`src/tree_incl_up.hh`) gave every child", 'position that is not being processed the *union* of all macro-states the antichain holds for that child, instead of one macro-state', 'per position in every combination; with a rule of rank >= 2 in the smaller automaton it could answer "included" for a pair that is', 'not included (A = all trees over a, b, g/2; B = trees whose leaves are all a or all b: g(a,b) was missed).  The repair enumerates the', 'product of the per-position antichain entries (copies taken before the functor changes the antichain; the processed set first for the', 'positions of the processed state) and calls the symbol-wise pairing once per combination; the tuple generator and the functor are', 'untouched.  The C07 check no longer excludes anything; all its queries (90 in the quick tier, including five new universes with rank-2', 'rules in the smaller automaton for the upward selections) pass on the repaired tree, and the recorded witness is part of them.', '',
            '| id | property | fix commit | defect | witness (harness config / inputs) |', '|---|---|---|---|---|']
     for k in kf:
         w = k.get('witness', {})
